@@ -599,7 +599,8 @@ int _vnadata_load_npd(vnadata_internal_t *vdip, FILE *fp, const char *filename)
 		goto out;
 	    }
 	    if (z0_vector == NULL) {
-		if ((z0_vector = calloc(ports,
+		/* a Zin vector of zero ports is a 1 x 0 object with one z0 entry */
+		if ((z0_vector = calloc(MAX(ports, 1),
 				sizeof(double complex))) == NULL) {
 		    _vnadata_error(vdip, VNAERR_SYSTEM,
 			    "calloc: %s", strerror(errno));
@@ -834,7 +835,8 @@ int _vnadata_load_npd(vnadata_internal_t *vdip, FILE *fp, const char *filename)
 	    goto out;
 	}
     } else if (fz0) {
-	if ((z0_vector = calloc(ports, sizeof(double complex))) == NULL) {
+	if ((z0_vector = calloc(MAX(ports, 1),
+			sizeof(double complex))) == NULL) {
 	    _vnadata_error(vdip, VNAERR_SYSTEM,
 		    "calloc: %s", strerror(errno));
 	    goto out;
